@@ -28,7 +28,8 @@ def fileScheme : String := "file"
 def normalizeBase (cwd : String) (u : URL) : URL :=
   let u := { u with fragment := "" }
   let u := { u with path := cleanPath u.path }
-  if u.scheme ≠ "" ∧ (isAbs u.path ∨ u.scheme ≠ fileScheme) then u
+  if u.scheme ≠ "" ∧ (isAbs u.path ∨ u.scheme ≠ fileScheme) then
+    (if u.scheme = fileScheme then { u with query := "" } else u)
   else { u with scheme := fileScheme, path := absPath cwd u.path, query := "" }
 
 def normalizeURI (ref base : URL) : URL :=
